@@ -311,6 +311,38 @@ class SaneC(_SupercellConcrete, Sane):
                 yield s2, ()
 
 
+# ---------------------------------------------------------------------------------------------
+# Pigeonhole lemmas (counting argument behind reorder's use of __sane__, which does not look for duplicates).
+#   R(n): for every f there is y in [0, n] with f[i] != y for all i in [0, n)      (n values cannot cover n+1)
+#   T(n): for every m: m maps [0, n) into [0, n) and onto [0, n)  ==>  m is injective on [0, n)
+# R is proved by induction on n (base + step obligations), T from R.  In each obligation the function at which the
+# induction hypothesis / R is used is written out pointwise (substituted for the array variable) and the
+# hypothesis' existential is named by a fresh constant; the goal's existential of R-step is given its witness.
+_IA = z3.ArraySort(z3.IntSort(), z3.IntSort())
+
+
+def _pigeonhole_obligations():
+    F, M = z3.Consts('php_F php_M', _IA)
+    n, y1, i, y, i0, j0 = z3.Ints('php_n php_y1 php_i php_y php_i0 php_j0')
+    dom = lambda k, hi: z3.And(k >= 0, k < hi)
+    # induction hypothesis R(n) at f1[i] = F[i] - 1 if F[i] > F[n] else F[i]; its witness is y1
+    f1 = lambda k: z3.If(F[k] > F[n], F[k] - 1, F[k])
+    w = z3.If(y1 >= F[n], y1 + 1, y1)
+    # R(n-1) at h[i] = M[n-1] if i == j0 else M[i]  (the colliding slot j0 is refilled with the last element)
+    h = lambda k: z3.If(k == j0, M[n - 1], M[k])
+    return [
+        ('pigeonhole-R:base', [], z3.And(z3.IntVal(0) >= 0, z3.IntVal(0) <= 0, z3.ForAll([i], z3.Implies(dom(i, 0), F[i] != 0)))),
+        ('pigeonhole-R:step', [n >= 0, y1 >= 0, y1 <= n, z3.ForAll([i], z3.Implies(dom(i, n), f1(i) != y1))],
+         z3.And(w >= 0, w <= n + 1, z3.ForAll([i], z3.Implies(dom(i, n + 1), F[i] != w)))),
+        ('pigeonhole-T:onto-implies-injective',
+         [n >= 0, z3.ForAll([i], z3.Implies(dom(i, n), dom(M[i], n))),
+          z3.ForAll([y], z3.Implies(dom(y, n), z3.Exists([i], z3.And(dom(i, n), M[i] == y)))),
+          0 <= i0, i0 < j0, j0 < n,
+          y1 >= 0, y1 <= n - 1, z3.ForAll([i], z3.Implies(dom(i, n - 1), h(i) != y1))],
+         M[i0] != M[j0]),
+    ]
+
+
 class Reorder(_SupercellConcrete, Contract):
     """reorder(mapping): newchemorder[c][i] = chemorder[c][mapping[c][i]]; ValueError (state unchanged) unless the
     result is consistent.  Precondition derived from the code: one map per species, each at least as long as its
@@ -320,7 +352,7 @@ class Reorder(_SupercellConcrete, Contract):
     params = {'mapping': 'seq2_int'}
     modifies = ('chemorder', 'g_pos')
     callees = {'__sane__': Sane()}
-    bounded_only = ('post:WF-no-duplicates', 'must-raise-ValueError-when-specified', 'raises-ValueError-only-when-specified')
+    min_obligations = 15
 
     def pre(self, s):
         co, mp = s.self.chemorder, s.v['mapping']
@@ -330,13 +362,35 @@ class Reorder(_SupercellConcrete, Contract):
                                    lambda c, i: And(mp.at(c, i) >= 0, mp.at(c, i) < co.lenof(c))))
 
     @staticmethod
+    def injective(mp, c, n):
+        return forall2(0, n, lambda i: i + 1, lambda i: n, lambda i, j: mp.at(c, i) != mp.at(c, j), 'pi')
+
+    @staticmethod
+    def onto(co, mp, c, n):
+        """every position p of the list is hit by some k (so the site at p reappears in the reordered list: the second
+        conjunct follows from the first by congruence; it is written out, and used as the instantiation trigger,
+        because the solver otherwise has no term that mentions p)"""
+        return forall(0, n, lambda p: exists(0, n, lambda k: And(mp.at(c, k) == p, co.at(c, mp.at(c, k)) == co.at(c, p)), 'po_k'),
+                      'po_p', pat=lambda p: co.at(c, p))
+
+    @staticmethod
     def proper(s):
-        """every map is injective on its list (a permutation, given the range precondition)"""
+        """every map is a permutation of the positions of its list: (given the range precondition) one-to-one AND onto"""
         co, mp = s.self.chemorder, s.v['mapping']
-        return forall(0, co.len, lambda c: forall2(0, co.lenof(c), lambda i: i + 1, lambda i: co.lenof(c),
-                                                   lambda i, j: mp.at(c, i) != mp.at(c, j)))
+        return forall(0, co.len, lambda c: And(Reorder.injective(mp, c, co.lenof(c)), lambda: Reorder.onto(co, mp, c, co.lenof(c))))
 
     raises = {'ValueError': lambda s: Not(Reorder.proper(s))}
+
+    def lemma_obligations(self, s):
+        return [] if BOUND[0] is not None else _pigeonhole_obligations()
+
+    def facts(self, s):
+        """T, instantiated at every row of the mapping (T is proved for every array and every n above)"""
+        if BOUND[0] is not None: return []      # finite instance (counterexample search): facts only strengthen hypotheses
+        co, mp = s.self.chemorder, s.v['mapping']
+        return [forall(0, co.len, lambda c: Implies(
+            And(forall(0, co.lenof(c), lambda i: And(mp.at(c, i) >= 0, mp.at(c, i) < co.lenof(c))), lambda: Reorder.onto(co, mp, c, co.lenof(c))),
+            lambda: Reorder.injective(mp, c, co.lenof(c))), 'pf_c')]
 
     def post(self, old, new, result):
         # the exit value of the ghost g_pos is not definable as a term without the inverse maps, so the
@@ -375,10 +429,12 @@ TRUSTED = [
     'pyvc encoder model of CPython list.index/pop/append, set add/in, numpy 1-D integer array load/store/copy, list comprehension as map, zip of equal-length lists',
     'z3 (python API) and /usr/bin/cvc5 on the queries posed',
     'ast extraction of the function bodies from the current working tree (docstrings/comments/decorators dropped)',
+    'reorder, pigeonhole lemmas: the solver checks R(0), R(n) => R(n+1) and R => T as three obligations; trusted meta-steps are induction over n, '
+    'naming the witness of an existential hypothesis by a fresh constant, existence of the pointwise-defined functions at which the hypotheses are '
+    'used (written out in place of the array variable), and instantiating the proved T at each row of `mapping`',
 ]
 GAPS = [
     'Supercell.fillperiodic, __setitem__, __mul__/__rmul__, copy, POSCAR, POSCAR_occ are outside the encoder subset (dict of tuple keys, generator next(), two-generator comprehension, string formatting/parsing, deepcopy): they are covered only by run-time contracts over bounded histories on real objects (level B, not proved). fillperiodic/POSCAR_occ mutate state only through setocc (proved), which the history check exercises.',
-    'reorder: the no-duplicates clause and the raises-iff-not-a-permutation clauses need a counting (pigeonhole) argument; they are decided on the finite instance (all lists of length <= 3) and labelled S.',
 ]
 
 
